@@ -191,4 +191,26 @@ CHECKS = {
         note="Width is defined for every AbiType of known width.",
         technique="TLA+ layout well-formedness invariants; TLC trace validation",
         ref="DESIGN.md §4 C12"),
+    "C09": dict(
+        category="model_checking",
+        text="Word.tla specifies 256-bit EVM arithmetic as limb arithmetic (ADD..SAR and EXP as functions, DIV/MOD/SDIV/SMOD "
+             "as relations checked with a quotient hint) and is model-checked against native arithmetic modulo B^N for all "
+             "operand pairs at small (B,N), including uniqueness of the relations; Value.tla specifies folding node by node "
+             "(the exact EVM constant when every folded operand is constant, otherwise the same operator over the folded "
+             "operands in the same positions). The real constant_fold is applied to every sub-tree of generated trees "
+             "(21 operators x boundary pairs, opaque operands in each position, depth <= 4) and ValueTrace.tla checks "
+             "Inv_C09_Meaning on every node plus idempotence and totality.",
+        note="Word.tla at (256,32) is trusted by uniformity with the exhaustively checked small instances.",
+        technique="TLA+ word/term specification model-checked at small widths; TLC trace validation of the real folder node by node",
+        ref="DESIGN.md §4 C09"),
+    "C18": dict(
+        category="model_checking",
+        text="Value.tla / ValueTrace.tla: Inv_C18_Accounting (the size a node reports equals the nodes it contains, for every "
+             "node of every value the VM produced and of its folded form) and Inv_C18_Limit (instruction results have at most "
+             " nodes) on programs that grow values (squaring, adding, hashing, shift-or loops; idiom and control-flow "
+             "programs) under limits 1..1000.",
+        note="StorageWrite wrappers created when storage is exported are not instruction results; their operands are. "
+             "Known finding: SLOAD builds its result outside the value builder.",
+        technique="TLA+ size invariants; TLC trace validation of measured value trees",
+        ref="DESIGN.md §4 C18"),
 }
